@@ -408,7 +408,63 @@ def gen_decks(outdir: str) -> list[str]:
     with open(p, "wb") as f:
         D.write_zip(members, f)
     out.append(p)
+    out.append(foreign_charts_deck(outdir))
     return out
+
+
+def foreign_charts_deck(outdir: str) -> str:
+    """A deck with charts of types python-pptx reads as foreign (it cannot generate them): c:bar3DChart, c:line3DChart, c:pie3DChart -
+    written by rewriting the plot element of charts the library generated (children as the 3-D types' content models allow; each chart
+    part is checked against dml-chart.xsd here)."""
+    import os
+    import pptx
+    from pptx.chart.data import CategoryChartData
+    from pptx.enum.chart import XL_CHART_TYPE
+    from pptx.util import Emu
+    from mbt.monitor import xsd
+    C = "http://schemas.openxmlformats.org/drawingml/2006/chart"
+    prs = pptx.Presentation()
+    for ct in (XL_CHART_TYPE.COLUMN_CLUSTERED, XL_CHART_TYPE.LINE, XL_CHART_TYPE.PIE):
+        cd = CategoryChartData()
+        cd.categories = ["x", "y", "z"]
+        cd.add_series("s1", (1, 2, 3))
+        if ct != XL_CHART_TYPE.PIE:
+            cd.add_series("s2", (3, 1, 2))
+        prs.slides.add_slide(prs.slide_layouts[6]).shapes.add_chart(ct, Emu(0), Emu(0), Emu(4000000), Emu(3000000), cd)
+    b = io.BytesIO()
+    prs.save(b)
+    members = D.read_zip(io.BytesIO(b.getvalue()))
+    q = lambda n: "{%s}%s" % (C, n)  # noqa: E731
+    for k, (old, new, drop) in enumerate((("barChart", "bar3DChart", ("overlap",)), ("lineChart", "line3DChart", ("marker", "smooth")),
+                                          ("pieChart", "pie3DChart", ("firstSliceAng",))), 1):
+        name = "ppt/charts/chart%d.xml" % k
+        root = etree.fromstring(members[name])
+        before = set(xsd.errors(etree.fromstring(members[name])))      # (the library's own negative axis ids are a recorded finding of C03)
+        plot = next(root.iter(q(old)))
+        plot.tag = q(new)
+        for ch in list(plot):
+            if etree.QName(ch).localname in drop:
+                plot.remove(ch)
+        for ser in plot.iter(q("ser")):             # (a marker inside a series is not part of a 3-D line series' use; it is allowed by CT_LineSer)
+            pass
+        if new == "line3DChart":                    # exactly three axes: a series axis joins the category and value axes
+            ax = etree.SubElement(plot, q("axId"))
+            ax.set("val", "77770003")
+            pa = plot.getparent()
+            first = [x for x in plot if x.tag == q("axId")][0].get("val")
+            ser_ax = etree.fromstring('<c:serAx xmlns:c="%s"><c:axId val="77770003"/><c:scaling/><c:delete val="0"/><c:axPos val="b"/>'
+                                      '<c:crossAx val="%s"/></c:serAx>' % (C, first))
+            last_ax = [x for x in pa if etree.QName(x).localname in ("catAx", "valAx", "dateAx")][-1]
+            last_ax.addnext(ser_ax)
+        errs = sorted(set(xsd.errors(etree.fromstring(etree.tostring(root)))) - before)
+        if errs:
+            raise RuntimeError("generated %s is not schema-valid: %s" % (new, errs))
+        members[name] = etree.tostring(root, xml_declaration=True, encoding="UTF-8", standalone=True)
+    os.makedirs(outdir, exist_ok=True)
+    p = os.path.join(outdir, "gen-foreign-charts.pptx")
+    with open(p, "wb") as f:
+        D.write_zip(members, f)
+    return p
 
 
 def corpus_decks():
